@@ -134,6 +134,15 @@ static void c01(Sink &sink, const Args &a, long c)
     // ... and every fourth is cluttered with many small obstacles (whatever the kind of space)
     const bool cluttered = !dirBlock && !hostile && widx % 4 == 2;
     auto w = makeWorld(wseed, kind, hostile, dirBlock ? -2 : narrow ? -3 : cluttered ? -4 : -1);
+    // two of every six worlds (those of them with plain inputs) have a validity checker that does not test the bounds (obstacles only): planners that
+    // extrapolate or perturb must bring their states back into the space themselves
+    if (!dirBlock && !hostile && (widx % 6 == 4 || widx % 6 == 1))
+    {
+        w->boundsLeftToPlanner = true;
+        // half of them with a range of the order of the space (steps that overshoot the box by a little), a sixth with a huge one
+        if (widx % 12 == 4 || widx % 12 == 1) w->rangeMode = (widx % 36 == 13) ? 2 : 3;
+        sink.count("cases_with_bounds_left_to_planner");
+    }
     if (cluttered) sink.count("cases_with_cluttered_world");
     if (narrow)
     {
@@ -167,7 +176,11 @@ static void c01(Sink &sink, const Args &a, long c)
         budget = (long)rng.logUni(5, 300);
         sink.count("cases_with_short_budget");
     }
-    SolveResult r = solveChecked(ctx, planner, pdef, budget, !pi.optimizing);
+    // optimizing planners normally use their whole budget; in every fourth world they are stopped at their first exact
+    // solution (the raw first path, before rewiring and pruning get a chance to replace its vertices)
+    const bool stopAtFirst = pi.optimizing && !dirBlock && widx % 4 == 0;
+    if (stopAtFirst) sink.count("cases_optimizing_planner_stopped_at_first_solution");
+    SolveResult r = solveChecked(ctx, planner, pdef, budget, !pi.optimizing || stopAtFirst);
     bool usableStart = !w->starts.empty(), usableGoal = !w->goals.empty();
     if (!usableStart || !usableGoal)
     {
@@ -281,7 +294,8 @@ static void newQuery(World &w, Rng &rng)
     }
 }
 
-static const char *OPN[] = {"solve", "solve0", "clear", "clearQuery", "newPdef", "getPlannerData", "newQuery+clear"};
+static const char *OPN[] = {"solve", "solve0", "clear", "clearQuery", "newPdef", "getPlannerData", "newQuery+clear",
+                            "samePdefEdited+setProblemDefinition", "samePdefEdited+clear", "samePdefEdited+clearQuery"};
 
 // After an interrupted / completed call: history of further calls under the oracle
 static void c03History(Sink &sink, const Args &a, long c, const PInfo &pi, long hidx)
@@ -320,6 +334,10 @@ static void c03History(Sink &sink, const Args &a, long c, const PInfo &pi, long 
             // the first history of every planner is fixed: solve, switch the problem definition without clear(), solve
             const bool fixedHistory = (hidx == 0);
             if (fixedHistory) len = 3;
+            // history 7 is fixed too: solve, new start / goal written into the SAME problem definition object, which is announced
+            // again with setProblemDefinition() (planners that clear their query there must do so for an unchanged pointer too), solve
+            const bool inPlaceHistory = (hidx == 7);
+            if (inPlaceHistory) len = 3;
             // histories 1 and 2 are fixed as well: reuse after clear() / clearQuery() with drawn (often multi-goal) queries:
             //   1: solve, solve, [new query + clear(), solve, solve] x 3        2: solve, [clearQuery + new query, solve] x 3
             static const int H1[] = {0, 0, 6, 0, 0, 6, 0, 0, 6, 0, 0};
@@ -332,7 +350,11 @@ static void c03History(Sink &sink, const Args &a, long c, const PInfo &pi, long 
             // cause (the planner did not forget the previous query) and share one key
             bool dirtySwitch = false;
             ctx.remap = [&dirtySwitch](const std::string &cl) {
-                if (dirtySwitch && (cl == "solution-start-state" || cl == "solution-goal-not-satisfied" || cl == "solution-approx-difference" || cl == "stale-query"))
+                // (... and, when the planner still believes it holds the old query's solution, a solution status although the
+                // re-filled problem definition holds no path)
+                if (dirtySwitch && (cl == "solution-start-state" || cl == "solution-goal-not-satisfied" || cl == "solution-approx-difference" || cl == "stale-query" ||
+                                    cl == "solution-status-without-path" || cl == "solution-exact-status-no-exact-solution" || cl == "status-without-path" ||
+                                    cl == "exact-status-no-exact-solution"))
                     return std::string("stale-query-after-setProblemDefinition");
                 return cl;
             };
@@ -343,9 +365,10 @@ static void c03History(Sink &sink, const Args &a, long c, const PInfo &pi, long 
             long violBefore = sink.violTotal();
             for (int step = 0; step < len && !abandoned; ++step)
             {
-                int op = step == 0 ? 0 : (int)rng.ui(7);
+                int op = step == 0 ? 0 : (int)rng.ui(10);
                 if (fixedHistory) op = step == 1 ? 4 : 0;
                 if (fixedOps) op = fixedOps[step];
+                if (inPlaceHistory) op = step == 1 ? 7 : 0;
                 hist += std::string(hist.empty() ? "" : ",") + OPN[op];
                 sink.count(std::string("c03_op_") + OPN[op]);
                 // flushed before the operation runs: a crash witness then tells which history led to it
@@ -428,6 +451,32 @@ static void c03History(Sink &sink, const Args &a, long c, const PInfo &pi, long 
                         pdef = makePdef(*w);
                         planner->setProblemDefinition(pdef);
                         dirtySwitch = true;
+                    }
+                    else if (op == 7 || op == 8 || op == 9)
+                    {
+                        // the next query is written into the same ProblemDefinition object (start states, goal and solution paths
+                        // replaced); the planner is told by setProblemDefinition(same object) / clear() / clearQuery()
+                        for (auto &x : w->starts) oldEnds.push_back(x);
+                        for (auto &x : w->goals) oldEnds.push_back(x);
+                        newQuery(*w, rng);
+                        refillPdef(pdef, *w);
+                        if (op == 7)
+                        {
+                            planner->setProblemDefinition(pdef);
+                            dirtySwitch = true;   // no clear(): same expectations (and the same key) as for a new object
+                        }
+                        else if (op == 8)
+                        {
+                            planner->clear();
+                            cleared = true;
+                            dirtySwitch = false;
+                        }
+                        else
+                        {
+                            planner->clearQuery();
+                            dirtySwitch = false;
+                        }
+                        sink.count("c03_in_place_query_edits");
                     }
                     else if (op == 5)
                     {
